@@ -30,9 +30,9 @@ IMPORTS = ("From Coq Require Import List ZArith QArith Qcanon.\n"
 RUN_DEF = ("Inductive ccase := CM (c : mll_case) | CL (c : nat * list (list Qc) * list Qc * list (list Qc) * list Qc * list Qc * list Qc)"
            " | CS (c : list mll_case) | CMB (c : mll_case) (bp : list bprior) (idx : list nat)"
            " | CLB (c : nat * list (list Qc) * list Qc * list (list Qc) * list Qc * list Qc * list Qc) (bp : list bprior) (idx : list nat)"
-           " | CN (t : mtree).\n"
+           " | CN (t : mtree) | CNA (t : mtree).\n"
            "Definition run (c : ccase) : list Z := match c with CM x => run_mll x | CL x => run_loo x | CS x => run_summll x"
-           " | CMB x bp idx => run_mll_b x bp idx | CLB x bp idx => run_loo_b x bp idx | CN t => run_named t end.")
+           " | CMB x bp idx => run_mll_b x bp idx | CLB x bp idx => run_loo_b x bp idx | CN t => run_named t | CNA t => run_named_added t end.")
 
 torch.set_default_dtype(torch.float64)
 mp.mp.dps = 40
@@ -147,12 +147,27 @@ class GP(gpytorch.models.ExactGP):
             inner = kern.base_kernel if isinstance(kern, DyadicKernel) else kern
             self.base_covar_module = inner.base_kernel
         self._added = list(added)
+        self._verif_terms = {}      # the harness' own record: registration index -> (module, name, current term object)
         for i, (where, _) in enumerate(self._added):
-            (self if where == "model" else self.covar_module).register_added_loss_term("verif_loss_%d" % i)
+            self._site(where).register_added_loss_term("verif_loss_%d" % i)
+
+    def _site(self, where):
+        """model | kernel (the outer kernel) | shared (the INNER kernel: with shared_handle it is reachable from the model under
+        two names, its added-loss terms must still enter the objective once)"""
+        if where == "model":
+            return self
+        if where == "shared":
+            k = self.covar_module
+            while hasattr(k, "base_kernel"):
+                k = k.base_kernel
+            return k
+        return self.covar_module
 
     def forward(self, x):
         for i, (where, val) in enumerate(self._added):
-            (self if where == "model" else self.covar_module).update_added_loss_term("verif_loss_%d" % i, ConstLoss(val))
+            term = ConstLoss(val)
+            self._site(where).update_added_loss_term("verif_loss_%d" % i, term)
+            self._verif_terms[i] = (self._site(where), "verif_loss_%d" % i, term)
         return gpytorch.distributions.MultivariateNormal(self.mean_module(x), self.covar_module(x))
 
 
@@ -385,6 +400,27 @@ def module_tree(model):
     return walk(model), ids, names, pids
 
 
+def added_tree(model):
+    """the model's module tree with its ADDED-LOSS registrations (harness' own record; call after a forward pass)
+    -> (Coq term, {name -> number}, {python id of term object -> number})"""
+    ids, names, oids, by_mod = {}, {}, {}, {}
+    for i in sorted(getattr(model, "_verif_terms", {})):
+        mod, name, term = model._verif_terms[i]
+        by_mod.setdefault(id(mod), []).append((names.setdefault(name, len(names)), oids.setdefault(id(term), len(oids))))
+
+    def walk(mod):
+        me = ids.setdefault(id(mod), len(ids))
+        ps = "; ".join("(%d%%nat, %d%%nat)" % q for q in by_mod.get(id(mod), []))
+        ch = "; ".join(walk(c) for _, c in mod.named_children())
+        return "(MNode %d%%nat [%s] [%s])" % (me, ps, ch)
+    return walk(model), names, oids
+
+
+def impl_named_added(model, names, oids):
+    """model.named_added_loss_terms() as sorted (name number, term object number) pairs"""
+    return sorted((names.get(full.rsplit(".", 1)[-1], -1), oids.get(id(term), -1)) for full, term in model.named_added_loss_terms())
+
+
 def impl_named_priors(model, ids, names, pids):
     """model.named_priors() as sorted (module number, name number, prior number) triples (-1 = not a registered one)"""
     out = []
@@ -499,7 +535,9 @@ def gen_case(rng, tier, family, regime=None):
     if family == "shared":
         c.update(kernel=rng.choice(["scale_rbf", "scale_matern"]), shared_handle=True, n=rng.randint(2, 3),
                  priors=[dict(target="lengthscale", spec=gen_prior(rng), closure="id", by_name=rng.random() < 0.5)]
-                 + [p for p in c["priors"] if p["target"] in ("outputscale", "noise")])
+                 + [p for p in c["priors"] if p["target"] in ("outputscale", "noise")],
+                 # an added-loss term ON the shared inner kernel (+ whatever was drawn for the model / outer kernel)
+                 added=[dict(where="shared", value=rng.randint(4, 40) / 16.0)] + c["added"][:1])
     if family == "samename":
         # two components of the same kind, a prior on the same-named parameter of BOTH, registered under colliding names
         kn = rng.choice(TWO_COMPONENT)
@@ -739,15 +777,27 @@ def decode(kind, r, N=None):
 
 # --------------------------------------------------------------------------- sum MLL family
 
-def gen_sum_case(rng, tier):
+def gen_sum_case(rng, tier, form="plain", hetero=False):
+    """form: "plain" = mll(outputs, targets); "params" = mll(outputs, targets, [x_1], ..., [x_k]) (every member gets its own
+    argument list: its training inputs).  hetero: members of pairwise different sizes, mostly with fixed per-point noise
+    (a likelihood whose noise operator depends on the number of points it is told about)"""
     k = rng.randint(2, 3)
     subs = []
-    for _ in range(k):
+    sizes = rng.sample([1, 2, 3, 4], k) if hetero else None
+    for i in range(k):
         c = gen_case(rng, tier, "single")
-        c["n"] = min(c["n"], 3); c["X"] = c["X"][:c["n"]]; c["y"] = c["y"][:c["n"]]
+        if hetero:
+            c["n"] = sizes[i]
+            c["lik"] = rng.choice(["fixed", "fixed", "fixed+learned", "gaussian"])
+            c["X"] = sep_points(rng, c["n"], c["d"])
+            c["y"] = [rng.randint(-16, 16) / 8.0 for _ in range(c["n"])]
+            c["dyadic"] = c["n"] >= 4
+        else:
+            c["n"] = min(c["n"], 3); c["X"] = c["X"][:c["n"]]; c["y"] = c["y"][:c["n"]]
         c["fast_log_prob"] = True
         subs.append(c)
-    return dict(family="sum", members=subs, kernel="+".join(s["kernel"] for s in subs), n=[s["n"] for s in subs])
+    return dict(family="sum", members=subs, kernel="+".join(s["kernel"] for s in subs), n=[s["n"] for s in subs], form=form,
+                liks=[s["lik"] for s in subs])
 
 
 def build_sum(case):
@@ -763,7 +813,10 @@ def impl_sum(case):
     mll = gpytorch.mlls.SumMarginalLogLikelihood(ll, ml)
     with torch.no_grad(), gs.debug(False):
         out = ml(*[m[2] for m in ms])
-        v = mll(out, [m[3] for m in ms])
+        if case.get("form", "plain") == "params":
+            v = mll(out, [m[3] for m in ms], *[[m[2]] for m in ms])
+        else:
+            v = mll(out, [m[3] for m in ms])
     return float(v)
 
 
@@ -817,9 +870,12 @@ def run(out, ctx):
     cases = [gen_case(rng, tier, fam, regime=BATCH_REGIMES[j % len(BATCH_REGIMES)] if fam == "batch" else None)
              for fam in ("single", "batch", "multitask", "shared", "samename", "sharedprior") for j in range(nc[fam])]
     sums = [gen_sum_case(rng, tier) for _ in range(nc["sum"])]
+    # the per-member-params call form and members of different sizes (own stream: the cases above stay what they were)
+    srng = random.Random(seed * 7919 + 202)
+    sums += [gen_sum_case(srng, tier, form=("params" if j % 4 != 3 else "plain"), hetero=(j % 4 != 2)) for j in range(nc["sum"])]
     grads = [gen_case(rng, tier, "grad") for _ in range(nc["grad"])]
     coq, owner = [], []
-    named_impl = {}
+    named_impl, added_impl = {}, {}
     for ci, c in enumerate(cases):
         built = build(c)
         for kind, b, term in plan_case(c, *built):
@@ -828,6 +884,15 @@ def run(out, ctx):
             # which registrations Module.named_priors yields, against the model's traversal of the same module tree
             tree, ids, names, pids = module_tree(built[0])
             coq.append("CN " + tree); owner.append(("named", ci, "named", 0))
+            if c["added"]:
+                # ... and which added-loss terms Module.named_added_loss_terms yields (the terms exist after the forward pass
+                # of plan_case)
+                atree, anames, aoids = added_tree(built[0])
+                coq.append("CNA " + atree); owner.append(("named-added", ci, "named-added", 0))
+                try:
+                    added_impl[ci] = impl_named_added(built[0], anames, aoids)
+                except Exception as e:  # noqa: BLE001
+                    added_impl[ci] = e
             try:
                 named_impl[ci] = impl_named_priors(built[0], ids, names, pids)
             except Exception as e:  # noqa: BLE001
@@ -846,11 +911,13 @@ def run(out, ctx):
     res = C.coq_run_cases(ctx.get("tag", "C02"), IMPORTS, RUN_DEF, coq, shard=max(4, len(coq) // 48))
     out.rule = ("random exact-GP problems (n<=%d, d<=3; 14 kernels incl. ARD and sums/products of two components of the same kind x 3 means x Gaussian / fixed-noise / fixed+learned noise; "
                 "Gamma / LogNormal / Normal / SmoothedBox priors on lengthscale, outputscale, noise, mean constant, ... (of either component) through "
-                "identity / log / square closures, registered under fresh names / the constructors' names (<param>_prior) / one common name; 0-2 added-loss terms registered on the model or on the kernel; "
+                "identity / log / square closures, registered under fresh names / the constructors' names (<param>_prior) / one common name; 0-2 added-loss terms registered on the model or on the kernel (family shared: also ON the shared inner kernel; Module.named_added_loss_terms compared exactly with the traversal model, memo on term objects); "
                 "fast_computations.log_prob on/off), batched models (full batch shapes of 1-3 dims; kernel, mean, likelihood and data each with their OWN batch shape: any right-aligned sub-shape "
                 "with size-1 dims, incl. NON-batch modules with vector parameters (ARD) inside a batched objective and module batch shapes shorter than the data batch shape; every batch element "
                 "against its own dense objective), two same-kind kernel components with same-named priors on both (family samename), one prior object registered on two modules (family sharedprior), Kronecker multitask (2 tasks, num_data = n*t), models that keep a second handle to the inner kernel (the SGPR example's base_covar_module pattern) with a prior on it, IndependentModelList + "
-                "SumMarginalLogLikelihood (2-3 members).  ExactMarginalLogLikelihood and LeaveOneOutPseudoLikelihood are both "
+                "SumMarginalLogLikelihood (2-3 members; called as mll(outputs, targets) and as mll(outputs, targets, [x_1], ..., [x_k]) "
+                "with every member's own argument list; members of equal sizes and of pairwise different sizes 1..4 with "
+                "fixed / fixed+learned / Gaussian noise).  ExactMarginalLogLikelihood and LeaveOneOutPseudoLikelihood are both "
                 "compared on every single-output case; Module.named_priors is compared exactly (as (module, name, prior object) triples) with the model's "
                 "traversal of the same module tree; which entries of a prior term count for which batch element is decided by the model (slot_sum).  non-trivial = n>=2 and the objective has at least one prior or added "
                 "term, or n>=3" % (5 if tier == "quick" else 7))
@@ -902,12 +969,28 @@ def run(out, ctx):
                     key = "%s:%s%s%s" % (lab, "priors" if case["priors"] else "noprior", "+added" if case["added"] else "",
                                          ":" + case["regime"] if fam == "batch" else "")
                     if fam == "shared":
-                        key = "%s:shared-module-handle:priors" % kind
+                        key = "%s:shared-module-handle:priors+added" % kind
                     if fam == "sharedprior":
                         key = "%s:shared-prior-object:priors" % kind
                     out.fail(key, "%s differs from its dense definition" % ("exact MLL" if kind == "mll" else "LOO pseudo-likelihood"),
                              dict(case=_clean(case), objective=kind, batch_element=b), impl=vals[b], model=float(d["value"]))
                     break
+    # ---- named_added_loss_terms (discrete: exact)
+    for ci, case in enumerate(cases):
+        if ci not in added_impl:
+            continue
+        (_, _, r), = by[("named-added", ci)]
+        want = sorted((r[k + 1], r[k + 2]) for k in range(0, len(r), 3))
+        fam = case["family"]
+        out.case(dict(objective="named_added_loss_terms", family=fam, kernel=case["kernel"], nterms=len(want), hseed=case["hseed"]),
+                 len(want) >= 1, label="named-added:" + fam)
+        key = "named-added:%s" % fam if fam != "shared" else "named-added:shared-module-handle"
+        if isinstance(added_impl[ci], Exception):
+            out.fail("impl-exception:" + key, "named_added_loss_terms() raised %r" % added_impl[ci], dict(case=_clean(case), objective="named-added"))
+        elif added_impl[ci] != want:
+            out.fail(key, "Module.named_added_loss_terms does not yield every distinct term object exactly once ((name, term object) "
+                     "numbers; -1 = not one of the registered)", dict(case=_clean(case), objective="named-added"),
+                     impl=[list(t) for t in added_impl[ci]], model=[list(t) for t in want])
     # ---- named_priors (discrete: exact)
     for ci, case in enumerate(cases):
         if ci not in named_impl:
@@ -928,7 +1011,8 @@ def run(out, ctx):
     for si, case in enumerate(sums):
         (_, _, r), = by[("sum", si)]
         d = decode("sum", r)
-        out.case(dict(objective="sum", members=len(case["members"]), n=case["n"], kernel=case["kernel"]), True, label="sum")
+        out.case(dict(objective="sum", members=len(case["members"]), n=case["n"], kernel=case["kernel"], form=case.get("form", "plain"),
+                      liks=case.get("liks")), True, label="sum:" + case.get("form", "plain"))
         if d is None:
             out.fail("model:singular", "model could not invert K+S (exact rational)", _clean(case)); continue
         try:
@@ -937,7 +1021,9 @@ def run(out, ctx):
             out.fail("impl-exception:sum:%s" % type(e).__name__, "implementation raised %r" % e, dict(case=_clean(case), objective="sum"))
             continue
         if not C.close(v, d["value"], TOL, TOL):
-            out.fail("sum-mll", "SumMarginalLogLikelihood differs from the mean of the members' dense objectives",
+            out.fail("sum-mll" if case.get("form", "plain") == "plain" else "sum-mll:per-member-params",
+                     "SumMarginalLogLikelihood%s differs from the mean of the members' dense objectives"
+                     % ("" if case.get("form", "plain") == "plain" else " called as mll(outputs, targets, [x_1], ..., [x_k])"),
                      dict(case=_clean(case), objective="sum"), impl=v, model=float(d["value"]))
     # ---- gradients
     for gi, case in enumerate(grads):
@@ -991,6 +1077,15 @@ def replay(path):
         want = sorted(tuple(r[i:i + 3]) for i in range(0, len(r), 3))
         got = impl_named_priors(model, ids, names, pids)
         print("module tree", tree); print("impl  named_priors (module, name, prior object)", got); print("model named_priors", want)
+        bad = got != want
+    elif kind == "named-added":
+        built = build(case)
+        plan_case(dict(case), *built)         # a forward pass: the added-loss terms exist
+        atree, anames, aoids = added_tree(built[0])
+        r = C.coq_run_cases("C02_replay", IMPORTS, RUN_DEF, ["CNA " + atree])[0]
+        want = sorted((r[k + 1], r[k + 2]) for k in range(0, len(r), 3))
+        got = impl_named_added(built[0], anames, aoids)
+        print("module tree", atree); print("impl  named_added_loss_terms (name, term object)", got); print("model", want)
         bad = got != want
     elif kind == "grad":
         gp = grad_plan(case)
